@@ -62,7 +62,7 @@ func (dg *defaultGrowerPipeline) worker(ctx context.Context, wg *sync.WaitGroup,
 			verifPoint("grow.recv.post", vid, verifName(root))
 			if err := dg.assemble(root); err != nil {
 				verifPoint("grow.errsend.pre", vid, verifName(root))
-				errc <- err
+				sendErr(ctx, errc, err)
 				verifPoint("grow.errsend.post", vid, verifName(root))
 				return
 			}
